@@ -11,8 +11,10 @@ PROPS = {
                       {"harness": "boolgp", "args": ["--scope", "S1", "--nmax", 4, "--k", 8, "--board", "aligned"]},
                       {"harness": "boolgp", "args": ["--scope", "S0", "--nmin", 4, "--nmax", 6, "--k", 8, "--board", "aligned", "--cliponly", 1]},
                       {"harness": "boolgp", "args": ["--scope", "S0", "--nmin", 4, "--nmax", 5, "--k", 16, "--both", 1, "--board", "aligned"]},
-                      {"harness": "boolgp", "args": ["--scope", "S3", "--nmax", 3]}],
+                      {"harness": "boolgp", "args": ["--scope", "S3", "--nmax", 3]},
+                      {"harness": "boolgp", "args": ["--scope", "S5"], "shards": 6}],
             "thorough": [{"harness": "boolgp", "args": ["--scope", "S1", "--nmax", 5]},
+                         {"harness": "boolgp", "args": ["--scope", "S5"], "shards": 6},
                          {"harness": "boolgp", "args": ["--scope", "S1", "--nmax", 4, "--k", 8, "--board", "aligned"]},
                          {"harness": "boolgp", "args": ["--scope", "S0", "--nmin", 4, "--nmax", 6, "--k", 8, "--board", "aligned", "--cliponly", 1]},
                          {"harness": "boolgp", "args": ["--scope", "S0", "--nmin", 4, "--nmax", 5, "--k", 16, "--both", 1, "--board", "aligned"]},
@@ -22,7 +24,7 @@ PROPS = {
         },
         "rule": "(generic board, and an 'aligned' board whose points share x / y coordinates so that vertical and horizontal edges occur) every rotation-normalised ordered tuple of distinct board-G points as subject polygon x the same over the clip board, both orientations, self-intersecting included; "
                 "plus single (mostly self-intersecting) subject paths of 4..6 vertices without clip path, over the 8 subject points and over all 16 points of the aligned boards; x 4 clip types x 4 fill rules x PreserveCollinear x ReverseSolution x HI_PRECISION; inputs failing the exact general-position filter are skipped and counted; "
-                "a case is non-trivial when the closed solution is non-empty and differs from both input path sets",
+                "plus 127..257 nested squares of one orientation beside a clip triangle (winding numbers up to 257); a case is non-trivial when the closed solution is non-empty and differs from both input path sets",
         "level_text": "Every input of the scope is executed on the real library and the result is compared, at every point of the plane outside the stated tolerance band (quadtree region engine, exact winding numbers), with the region defined by fill rule and clip type.",
         "assumptions": ["inputs limited to the stated vertex/path bounds and board coordinates, plus the magnitude alphabet (9 affine maps up to 2^61; triangles in the quick tier, quads in the thorough tier)",
                         "points closer than 2*r_leaf to the tolerance band are not decided (reported as rim)"],
